@@ -373,22 +373,31 @@ def listeners(ctx):
         ns = stat[id(b)].nodes.get(id(n))
         if not (ns is not None and ns.d.get('STEP_TICKED') is t.step and z3.is_true(z3.simplify(ns.d['FLAGS'].bits['TICKED'])) and t.emitted[-1][0] == 'AFTER_NODE_TICK'): ok = False; why.append('after_tick')
         # after_rule_apply: exactly one history entry, STARTED set
-        for has_entry in (True, False):
+        for has_entry, is_flag_target in ((True, False), (False, False), (True, True), (False, True)):
             t = TabL(); hist = LocalList()
+            # a target is a mapping: the application of a quit flag (target['flag'] set) is a step like any other
+            tprops = dict(flag='quit') if is_flag_target else {}
             class Tgt(SymVal):
                 def sym_getattr(s, it, name):
                     if name == '_entry':
                         if has_entry: return 'ENTRY'
                         raise PyExc(AttributeError, ())
                     if name == 'rule': return 'RULE'
+                    if name == 'get': return Contract(lambda it, k, d=None: tprops.get(getattr(k, 'value', k), d), 'Target.get')
+                    if name in tprops: return tprops[name]
                     raise Outside(name)
+                def sym_getitem(s, it, k):
+                    k = getattr(k, 'value', k)
+                    if k in tprops: return tprops[k]
+                    raise PyExc(KeyError, (k,))
+                def sym_contains(s, it, k): return getattr(k, 'value', k) in tprops
             world.builtin_models[Tableau.StepEntry] = lambda it, r, tg, c: ('ENTRY2', r, tg)
             from pytableaux.tools.timing import Counter
             world.builtin_models[Counter] = lambda it: 'counter'
             tg = Tgt()
             fr = mkframe(t, history=hist)
             it.call_closure(Closure(fiR.node, fr, 'after_rule_apply'), [tg], {})
-            if not (len(hist) == 1 and (hist[0] == 'ENTRY' if has_entry else (hist[0][0] == 'ENTRY2' and hist[0][2] is tg)) and z3.is_true(z3.simplify(t.flag.bits['STARTED']))): ok = False; why.append('after_rule_apply')
+            if not (len(hist) == 1 and (hist[0] == 'ENTRY' if has_entry else (hist[0][0] == 'ENTRY2' and hist[0][2] is tg)) and z3.is_true(z3.simplify(t.flag.bits['STARTED']))): ok = False; why.append('after_rule_apply' + (' (quit-flag target: the step is not recorded)' if is_flag_target else ''))
         # add_branch: open list gains the branch iff it is not closed; branches gains it; duplicate raises
         for closed, dup in ((False, False), (True, False), (False, True)):
             t = TabL(); stat = {}
